@@ -9,8 +9,9 @@ Actors and where their steps come from
 * the harness run loop + its forwarder goroutine: `harnessActive` (`active := 1`), `harnessCall`
   (`activity.NextAction`: the activity's run loop is started by the CAS 0→1 and the next-action message is queued —
   a SEPARATE step: a tracer send, and for a sub-process the start of its monitor, sit between the two, and an
-  interrupting listener that fires in between gets its cancel message into the activity's inbox FIRST),
-  `forward` (`out <- rsp`), `clear` (`active := 0`, a separate statement after the send);
+  interrupting listener that fires in between gets its cancel message into the activity's inbox FIRST). Their
+  order is the fact `Cfg.early` (`hStage` counts how many of the two have been executed; the forwarder goroutine
+  is created after both), `forward` (`out <- rsp`), `clear` (`active := 0`, a separate statement after the send);
 * the task / sub-process run loop: `taskTake` handles the head of its inbox: a next-action message spawns the request
   goroutine; a cancel message is answered `false` while `active.Load() > 1` (a request goroutine is counted), else
   `true` and the run loop EXITS;
@@ -45,10 +46,13 @@ structure Cfg where
   refuse : Bool
   /-- the listener flows are created with the instance's flow wait group -/
   share : Bool
+  /-- `harness.run` stores `active = 1` BEFORE it calls `activity.NextAction` (which queues the activity's first
+      message); `false`: the other way round -/
+  early : Bool
 deriving DecidableEq, Repr
 
 /-- what the code is today -/
-def Cfg.code : Cfg := { gated := true, once := true, refuse := true, share := true }
+def Cfg.code : Cfg := { gated := true, once := true, refuse := true, share := true, early := true }
 
 inductive LPhase where
   | idle        -- flow not started (host never reached)
@@ -80,7 +84,6 @@ deriving DecidableEq, Repr
 inductive Req where
   | none       -- token not yet at the host
   | atHarness  -- next-action message queued at the harness
-  | calling    -- harness active (`active = 1`), `activity.NextAction` not yet called
   | atTask     -- message queued at the activity
   | spawned    -- request goroutine spawned, not yet counted in `active`
   | pending    -- waits for its answer (TaskTrace visible)
@@ -91,8 +94,8 @@ inductive Req where
 deriving DecidableEq, Repr
 
 def Req.rank : Req → Nat
-  | .none => 0 | .atHarness => 1 | .calling => 2 | .atTask => 3 | .spawned => 4 | .pending => 5 | .answered => 6
-  | .responded => 7 | .forwarded => 8 | .done => 9
+  | .none => 0 | .atHarness => 1 | .atTask => 2 | .spawned => 3 | .pending => 4 | .answered => 5
+  | .responded => 6 | .forwarded => 7 | .done => 8
 
 inductive TMsg where
   | next
@@ -106,6 +109,8 @@ def TMsg.isCancel : TMsg → Bool
 structure St where
   ls : List Listener
   req : Req := .none
+  /-- how many of the harness's two activation statements (`active := 1`, `activity.NextAction`) have run -/
+  hStage : Nat := 0
   /-- `harness.active` -/
   hActive : Bool := false
   /-- the forwarder sent on `out` and has not yet executed `active := 0` -/
@@ -150,13 +155,21 @@ def step (cfg : Cfg) (s : St) : Label → Option St
     | .none => some { s with req := .atHarness, ls := s.ls.map startListener }
     | _ => none
   | .harnessActive =>
-    match s.req with
-    | .atHarness => some { s with req := .calling, hActive := true }
-    | _ => none
+    if cfg.early then
+      (match s.req, s.hStage with
+       | .atHarness, 0 => some { s with hStage := 1, hActive := true }
+       | _, _ => none)
+    else
+      (match s.hStage with
+       | 1 => some { s with hStage := 2, hActive := true }
+       | _ => none)
   | .harnessCall =>
-    match s.req with
-    | .calling => some { s with req := .atTask, tRun := true, tq := s.tq ++ [.next] }
-    | _ => none
+    match s.req, s.hStage with
+    | .atHarness, 0 =>
+      if cfg.early then none else some { s with req := .atTask, hStage := 1, tRun := true, tq := s.tq ++ [.next] }
+    | .atHarness, 1 =>
+      if cfg.early then some { s with req := .atTask, hStage := 2, tRun := true, tq := s.tq ++ [.next] } else none
+    | _, _ => none
   | .taskTake =>
     if s.tRun then
       match s.tq with
@@ -190,9 +203,9 @@ def step (cfg : Cfg) (s : St) : Label → Option St
       | _ => none
     else none
   | .forward =>
-    match s.req with
-    | .responded => some { s with req := .forwarded, clearPending := true }
-    | _ => none
+    match s.req, s.hStage with
+    | .responded, 2 => some { s with req := .forwarded, clearPending := true }
+    | _, _ => none
   | .clear =>
     if s.clearPending then some { s with clearPending := false, hActive := false } else none
   | .hostTake =>
@@ -248,10 +261,13 @@ def Listener.quiet (l : Listener) : Bool :=
     | _ => true)
 
 /-- no internal label is enabled (`quiet_iff` in Lemmas/Boundary.lean) -/
-def quiet (s : St) : Bool :=
+def quiet (cfg : Cfg) (s : St) : Bool :=
   (match s.req with
-   | .atHarness | .calling | .spawned | .answered | .responded | .forwarded => false
+   | .spawned | .answered | .forwarded => false
    | _ => true)
+  && !((match s.req with | .atHarness => true | _ => false) && (s.hStage == 0 || (cfg.early && s.hStage == 1)))
+  && !(!cfg.early && s.hStage == 1)
+  && !((match s.req with | .responded => true | _ => false) && s.hStage == 2)
   && !(s.tRun && !s.tq.isEmpty)
   && !(s.counted && (match s.req with | .responded | .forwarded | .done => true | _ => false))
   && !s.clearPending
